@@ -151,3 +151,82 @@ func genI2NewRule(r *rng, n int, w *bufio.Writer) {
 			ans, noteStr(line))
 	}
 }
+
+// op `i2.textmatch`: rule TEXT + request -> Go NewNetworkRule + Match, versus the complete parser
+// model + Match over modelPat, versus the reference computed from the parsed values and the mask
+// language.  No Go-supplied table but psl / addr / prefix (and the shortcut of a /regex/ pattern).
+//   i2.textmatch <text> <listID> <addrs> <prefixes> <reshortcuts> <Q> <psl> = T|F|err
+func init() { gens["i2.textmatch"] = genI2TextMatch }
+
+func genI2TextMatch(r *rng, n int, w *bufio.Writer) {
+	r = eReseed(r)
+	for i := 0; i < n; i++ {
+		var t string
+		var f *rules.NetworkRule
+		var err error
+		id := eListID(r)
+		for k := 0; ; k++ {
+			switch j := r.n(16); {
+			case j < 2:
+				t = eGenParseText(r)
+			case j < 4:
+				t = pickRegexRule(r).RuleText
+				if r.chance(1, 3) {
+					t += "$" + strings.Join(eGenModifiers(r, strings.HasPrefix(t, "@@")), ",")
+				}
+			case j < 5:
+				t = i2DNSRewriteRule(r)
+			case j < 7:
+				// group G's mask patterns under group E's modifiers
+				p := c03AccPattern(r)
+				t = p
+				if mods := eGenModifiers(r, false); len(mods) > 0 {
+					t += "$" + strings.Join(mods, ",")
+				} else {
+					t += "$domain=example.org|site.com"
+				}
+			default:
+				t = eGenNetRuleText(r)
+			}
+			f, err = guardRule(t, id)
+			if err == nil || r.chance(1, 12) || k > 50 {
+				break
+			}
+		}
+		var q *rules.Request
+		if f != nil {
+			switch {
+			case f.IsRegexRule() && r.chance(2, 3):
+				u := pick(r, i2RegexTargets(r, f, 1))
+				if !strings.Contains(u, "://") {
+					u = pick(r, poolSchemes) + "://" + pick(r, poolDomains) + "/" + u
+				}
+				q = eAimedRequest(r, f, t)
+				if !q.IsHostnameRequest {
+					q2 := rules.NewRequest(u, q.SourceURL, q.RequestType)
+					q2.SortedClientTags, q2.ClientName, q2.ClientIP, q2.DNSType = q.SortedClientTags, q.ClientName, q.ClientIP, q.DNSType
+					q = q2
+				}
+			default:
+				q = eAimedRequest(r, f, t)
+				if r.chance(1, 2) {
+					for k := 0; k < 12 && guardStr(func() string { return wbool(f.Match(q)) }) != "T"; k++ {
+						q = eAimedRequest(r, f, t)
+					}
+				}
+			}
+		} else {
+			q = genRequest(r, []string{t})
+		}
+		ans := "err"
+		if f != nil {
+			ans = guardStr(func() string { return wbool(f.Match(q)) })
+		}
+		addrs, reTable := i2Oracles(t)
+		addrs = append(addrs, q.Hostname)
+		fmt.Fprintf(w, "i2.textmatch %s %d %s %s %s %s %s = %s ## %s | %s src=%s host=%s hostreq=%v type=%d dns=%d tags=%q client=%q/%s\n",
+			wb(t), id, waddrs(addrs...), wprefixes(addrs...), reTable, wrequest(q), wpsl(q.Hostname, q.SourceHostname), ans,
+			noteStr(t), noteStr(q.URL), noteStr(q.SourceHostname), noteStr(q.Hostname), q.IsHostnameRequest, q.RequestType, q.DNSType,
+			q.SortedClientTags, q.ClientName, q.ClientIP)
+	}
+}
